@@ -483,6 +483,11 @@ class Interp:
             return ptr.addr, ptr.proj
         if k == 'field':
             a, pr = self.loc(fr, st, pl[1])
+            if pl[2] == 0 and len(pl) > 3 and (pl[3].startswith('std::num::NonZero<') or 'niche_types::' in pl[3] or re.fullmatch(r'\(?(?:[iu](?:8|16|32|64|128|size))\)?(?: is .*)?', pl[3].strip()) is not None):
+                # integer newtypes of std (StatusCode(NonZero<u16>(NonZeroU16Inner(u16)))) whose models are the bare integer
+                base = project(st.store[a], pr) if not any(x[0] == 'I' for x in pr) else None
+                if base is not None and z3.is_expr(base) and z3.is_bv(base):
+                    return a, pr
             return a, pr + (('f', pl[2]),)
         if k == 'downcast':
             a, pr = self.loc(fr, st, pl[1])
@@ -560,8 +565,8 @@ class Interp:
 
     # ------------------------------------------------------------------ constants
     def const(self, fr, st, c):
-        m = re.fullmatch(r'(-?\d+)_(\w+)', c)
-        if m:
+        m = re.fullmatch(r'(-?\d+)_(\w+)(?: is .*)?', c)           # `204_u16 is 1..`: constant of a pattern type (NonZero internals)
+        if m and m.group(2) in INT_BITS:
             return bv(int(m.group(1)), INT_BITS[m.group(2)])
         if c == 'true':
             return z3.BoolVal(True)
@@ -635,6 +640,9 @@ class Interp:
             return self.const_generic_defaults[c]
         if c in self.ext_consts:
             return self.ext_consts[c](self, st)
+        if c.startswith('<') and '>::' in c and re.fullmatch(r'[A-Z_]\w*', c.split('>::')[-1].split('::')[-1]):
+            # <X as Tr>::method::Local  -- unit struct declared inside a trait-impl method (named like adt() names its tuple form)
+            return Agg(last_seg(c.split('>::')[-1]).split('::<')[0], ())
         # unit-like / tuple constant of an ADT:  path::Name  |  path::Name(()) | path::Name {{ .. }}
         cc = c
         if '::<' in c and not c.startswith('<'):
@@ -644,6 +652,21 @@ class Interp:
         nm = self._resolve_item(fr.fn.crate, c)
         if nm is not None and self.p.fns[nm].kind == 'const':
             return self.eval_const(nm, st, {})
+        if m and re.fullmatch(r'[A-Z][A-Z0-9_]*', m.group(1).split('::')[-1]) and '::' in m.group(1):
+            # associated const of an impl (`Self::BODY_LIMIT`): its body is dumped under the impl's span
+            path = m.group(1)
+            last, owner = path.split('::')[-1], path.split('::')[-2]
+            cands = [n for n in self.p.by_last.get(last, []) if self.p.fns[n].kind == 'const' and re.search(r'<impl at [^>]*>::' + last + '$', n)]
+            ex = []
+            for n in cands:
+                for info in self.p.impls:
+                    if any(n in ms for ms in info.methods.values()) or n.startswith(info.name + '::') if hasattr(info, 'name') else False:
+                        ex.append(n)
+            if len(cands) > 1:
+                byowner = [n for n in cands if owner in self.p.fns[n].header or any(owner in getattr(i_, 'text', '') for i_ in self.p.impls if n.rsplit('::', 1)[0].endswith(getattr(i_, 'span_name', '\0')))]
+                cands = byowner or cands
+            if len(cands) == 1:
+                return self.eval_const(cands[0], st, fr.tenv)
         if m:
             path = m.group(1)
             last = path.split('::')[-1]
@@ -1494,6 +1517,27 @@ class Interp:
                     ex = [n for n in cands if re.search(r'\b' + re.escape(nm) + r'\b', self.p.fns[n].header.split('::' + method)[-1])]
                     if ex:
                         cands = ex
+            if len(cands) > 1:
+                # the same local type name declared in several functions (two `deserialize` fns each with a `KeyVisitor`):
+                # (1) the function the call comes from, (2) the number of type parameters of the local type
+                fname = ctx.fr.fn.name if ctx is not None and getattr(ctx, 'fr', None) is not None else ''
+                k = fname.find('::' + meth_outer)
+                if k >= 0:
+                    pre = fname[:k + len('::' + meth_outer)]
+                    ex = [n for n in cands if n.startswith(pre + '::')]
+                    if ex:
+                        cands = ex
+            if len(cands) > 1:
+                def arity(n):
+                    for info in self.p.impls:
+                        for ms in info.methods.values():
+                            if n in ms:
+                                t = info.self_ty
+                                return len(t[2]) if isinstance(t, tuple) and len(t) > 2 and t[0] == 'path' else 0
+                    return None
+                ex = [n for n in cands if arity(n) == len(head[2])]
+                if len(ex) == 1:
+                    cands = ex
             if len(cands) == 1:
                 b = dict(ctx.fr.tenv)
                 f = self.p.fns[cands[0]]
